@@ -19,6 +19,7 @@ open N2k.Gen
 /-- a decimal literal of moderate size: mantissa up to 10^30 in absolute value, exponent in [-100, 30] -/
 def Lit.moderate (l : Lit) : Bool := decide (l.m.natAbs ≤ 10 ^ 30 ∧ -100 ≤ l.e ∧ l.e ≤ 30)
 
+-- no Offset here (`Lit.ofInt 0`), so the effective signedness of `decodeNumber` (`C01_effSigned`) is `signed` itself
 theorem C01_number_total_float (data off len : Nat) (signed : Bool) (res mn mx : Lit)
     (z : Int) (hz : z = (if signed then signExtend (Straight.decode_int data off len) len
                           else ((Straight.decode_int data off len : Nat) : Int)))
